@@ -331,7 +331,9 @@ func (e *Enc) fresh(t types.Type, hint string) Val {
 
 func (e *Enc) assumeLeafRange(c T, l leaf) {
 	switch l.kind {
-	case "len", "cap", "off", "tag":
+	case "len", "cap", "off":
+		e.s.Assume(And(Ge(c, IntLit(0)), Le(c, IntBig(maxSliceLen))))
+	case "tag":
 		e.s.Assume(Ge(c, IntLit(0)))
 	case "":
 		if l.typ != nil {
@@ -451,7 +453,7 @@ func sameAddr(a, b Addr) bool {
 func (e *Enc) eqVal(a, b Val, t types.Type) T {
 	if _, ok := under(t).(*types.Interface); ok {
 		ia, ib := a.(*IfaceV), b.(*IfaceV)
-		return And(Eq(ia.Tag, ib.Tag), Eq(ia.Data, ib.Data))
+		return ifaceEq(ia, ib)
 	}
 	fa := e.flatten(a, t)
 	fb := e.flatten(b, t)
@@ -502,3 +504,17 @@ func sanitize(s string) string {
 	s = strings.ReplaceAll(s, "|", "!")
 	return s
 }
+
+// ifaceEq: interface equality; the data word is irrelevant for nil interfaces.
+func ifaceEq(a, b *IfaceV) T {
+	if a.Tag.S == "0" {
+		return Eq(b.Tag, IntLit(0))
+	}
+	if b.Tag.S == "0" {
+		return Eq(a.Tag, IntLit(0))
+	}
+	return And(Eq(a.Tag, b.Tag), Or(Eq(a.Tag, IntLit(0)), Eq(a.Data, b.Data)))
+}
+
+// slices cannot be longer than the address space allows: len, cap and offsets fit in 2^47.
+var maxSliceLen = new(big.Int).Lsh(big.NewInt(1), 47)
